@@ -50,6 +50,10 @@ def judge(case: dict, r: dict) -> list[tuple[str, str]]:
     if r["outcome"] in ("hang", "harness-error"):
         fails.append((f"run:{r['outcome']}", f"{name}: {r.get('msg', '')[:300]}"))
         return fails
+    rows = r.get("execution_rows") or {}
+    for job, n in r["attempts"].items():
+        if job in rows and len(rows[job]) != n:
+            fails.append(("execution-table-disagrees-with-injector-log", f"{name}: {job}: {len(rows[job])} rows in `execution`, {n} executions logged"))
     if limit is not None:
         for job, n in r["attempts"].items():
             if n > limit:
@@ -98,7 +102,7 @@ class C17(Property):
         quick = ctx.tier == "quick" and ctx.mode != "search"
         cases = gen_cases(ctx.rng, quick)
         lines, meta = [], []
-        for case, status, r in pmap(recov.run_case, cases, timeout=300, workers=6):
+        for case, status, r in pmap(recov.run_case, cases, timeout=900, workers=6):
             if status != "ok":
                 ctx.fail("run:" + status, f"{case['name']}: {str(r)[:300]}", {"recovery": case})
                 continue
